@@ -248,7 +248,8 @@ impl<'a> Gen<'a> {
             attrs.push(("id".into(), format!("{}{}", pfx, self.idn)));
         }
         if self.o.classes && self.rng.chance(1, 3) {
-            let c = *self.rng.pick(&["ca", "cb", "cc", "ca cb", "Cd", "cd", "cD ca", "MsoNormal"]);
+            // (class names are separated by any of space, tab, LF, FF, CR)
+            let c = *self.rng.pick(&["ca", "cb", "cc", "ca cb", "Cd", "cd", "cD ca", "MsoNormal", "cb\tca", "cc\ncb", "ca \u{c}cc", " cb\r\nca "]);
             attrs.push(("class".into(), c.to_string()));
         }
         if self.o.colours && self.rng.chance(1, 5) {
@@ -351,6 +352,14 @@ impl<'a> Gen<'a> {
                             _ => H::El("span".into(), vec![], vec![H::Text(format!(" {}", w))]),
                         };
                         v.push(H::El("sup".into(), attrs, vec![H::Text(d), more]));
+                    } else if self.o.links && self.rng.chance(1, 6) {
+                        // a footnote-style link inside the superscript: digits (or a word) as link text
+                        self.linkn += 1;
+                        let href = format!("http://h{}.example/n", self.linkn);
+                        self.hrefs.push(href.clone());
+                        let t = if self.rng.chance(2, 3) { format!("{}", 1000 + self.rng.below(3000)) } else { *budget = budget.saturating_sub(1); self.word() };
+                        let a = H::El("a".into(), vec![("href".to_string(), href)], vec![H::Text(t)]);
+                        v.push(H::El("sup".into(), attrs, vec![a]));
                     } else if self.rng.chance(1, 6) {
                         // numeric characters that are not ASCII digits (alone, or mixed with digits)
                         let d = *self.rng.pick(&["\u{b2}", "\u{bd}", "\u{2460}", "\u{661}", "\u{ff11}\u{ff12}", "1\u{662}", "\u{2075}2", "\u{2167}", "\u{96d}"]);
